@@ -287,6 +287,18 @@ class Exec:
 
     # ---- calls ----------------------------------------------------------------------------
     def call(self, ty, name, recv, args):
+        rty = self.crate.resolve_ty(ty) if ty else ty
+        self.depth = getattr(self, "depth", 0) + 1
+        try:
+            h = getattr(self, "contracts", {}).get((rty, name))
+            if h is not None and self.depth > 1:
+                # modular mode: the callee is represented by its CONTRACT (requires checked, state havocked, ensures assumed)
+                return h(self, recv, args)
+            return self._call_body(ty, name, recv, args)
+        finally:
+            self.depth -= 1
+
+    def _call_body(self, ty, name, recv, args):
         fn, where = self.crate.fn(ty, name)
         frame = {}
         if fn["self"] is not None:
